@@ -93,8 +93,40 @@ def close_pool():
         _POOL = None
 
 
-def discharge(obligations, cvc5_all=False, seed=0, parallel=True):
-    """-> list of Verdict (same order).  Trivial goals are decided syntactically."""
+def discharge(obligations, cvc5_all=False, seed=0, parallel=True, grouped=True):
+    """-> list of Verdict (same order).  Obligations recorded at the same point of the same path share
+    their facts: they are first tried as one conjunction (one query); only a group that is not discharged
+    as a whole is split into its members (so that the failing clause can be named)."""
+    if grouped and len(obligations) > 8:
+        groups = {}
+        for i, ob in enumerate(obligations):
+            groups.setdefault((ob.path_id, len(ob.facts), id(ob.facts[-1]) if ob.facts else 0), []).append(i)
+        from .paths import Obligation
+        gobs, gidx, rest = [], [], []
+        for key, idxs in groups.items():
+            if len(idxs) < 2:
+                rest.extend(idxs)
+                continue
+            first = obligations[idxs[0]]
+            if any(len(obligations[j].facts) != len(first.facts) for j in idxs):
+                rest.extend(idxs)
+                continue
+            gobs.append(Obligation('group', first.facts, z3.And([obligations[j].goal for j in idxs]), None, first.path_id))
+            gidx.append(idxs)
+        verdicts = [None] * len(obligations)
+        gver = discharge(gobs, cvc5_all, seed, parallel, grouped=False)
+        for gv, idxs in zip(gver, gidx):
+            if gv.result == 'unsat':
+                for j in idxs:
+                    v = Verdict(obligations[j])
+                    v.result, v.backend, v.time_s = 'unsat', gv.backend, gv.time_s / len(idxs)
+                    verdicts[j] = v
+            else:
+                rest.extend(idxs)
+        rver = discharge([obligations[j] for j in rest], cvc5_all, seed, parallel, grouped=False)
+        for j, v in zip(rest, rver):
+            verdicts[j] = v
+        return verdicts
     verdicts = [Verdict(ob) for ob in obligations]
     jobs = []
     texts = {}
